@@ -230,3 +230,41 @@ func (p pile) Max() model3d.Coord3D {
 	}
 	return top
 }
+
+// want:TRIVERT the corner is recomputed.
+func FanBad(poly []model3d.Coord3D) [][3]model3d.Coord3D {
+	var res [][3]model3d.Coord3D
+	for i := 1; i+1 < len(poly); i++ {
+		res = append(res, [3]model3d.Coord3D{poly[0], poly[i].Add(poly[0]).Sub(poly[0]), poly[i+1]})
+	}
+	return res
+}
+
+// clean:TRIVERT
+func FanGood(poly []model3d.Coord3D) [][3]model3d.Coord3D {
+	var res [][3]model3d.Coord3D
+	for i := 1; i+1 < len(poly); i++ {
+		res = append(res, [3]model3d.Coord3D{poly[0], poly[i], poly[i+1]})
+	}
+	return res
+}
+
+// want:CAPPAIR both caps wound alike.
+func CapsBad(tris [][3]model3d.Coord3D, lo, hi float64) []*model3d.Triangle {
+	var res []*model3d.Triangle
+	for _, t := range tris {
+		res = append(res, &model3d.Triangle{model3d.XYZ(t[0].X, t[0].Y, lo), model3d.XYZ(t[1].X, t[1].Y, lo), model3d.XYZ(t[2].X, t[2].Y, lo)})
+		res = append(res, &model3d.Triangle{model3d.XYZ(t[1].X, t[1].Y, hi), model3d.XYZ(t[2].X, t[2].Y, hi), model3d.XYZ(t[0].X, t[0].Y, hi)})
+	}
+	return res
+}
+
+// clean:CAPPAIR
+func CapsGood(tris [][3]model3d.Coord3D, lo, hi float64) []*model3d.Triangle {
+	var res []*model3d.Triangle
+	for _, t := range tris {
+		res = append(res, &model3d.Triangle{model3d.XYZ(t[0].X, t[0].Y, lo), model3d.XYZ(t[1].X, t[1].Y, lo), model3d.XYZ(t[2].X, t[2].Y, lo)})
+		res = append(res, &model3d.Triangle{model3d.XYZ(t[1].X, t[1].Y, hi), model3d.XYZ(t[0].X, t[0].Y, hi), model3d.XYZ(t[2].X, t[2].Y, hi)})
+	}
+	return res
+}
